@@ -150,7 +150,7 @@ func eqs(x, y []string) bool {
 }
 
 // suiteCrash: mode "process" (C09/C10) or "power" (C11, SyncEnable forced on).
-func suiteCrash(seed uint64, n int, work string, power bool) {
+func suiteCrash(seed uint64, n int, work string, power bool, sparse bool) {
 	os.MkdirAll(work, 0755)
 	live := NewSt(work + "/live")
 	rec := NewSt(work + "/rec")
@@ -164,6 +164,12 @@ func suiteCrash(seed uint64, n int, work string, power bool) {
 	p.NoSPop = true
 	p.OpsMin, p.OpsMax = 1, 4
 	p.Vals = append(append([]string{}, p.Vals...), strings.Repeat("L", 120), strings.Repeat("M", 260))
+	if sparse {
+		// HintBPTSparseIdxMode: key/value data in one bucket (what C02 covers), enough keys per segment
+		// for on-disk index trees with inner nodes, several sealed segments
+		p = profileByName("sparse2")
+		p.Reopen, p.Txs, p.ReadOnly, p.Abort = 0, 14, 5, 5
+	}
 	images, opens := 0, 0
 	for i := 0; i < n; i++ {
 		r := root.Fork()
@@ -173,6 +179,10 @@ func suiteCrash(seed uint64, n int, work string, power bool) {
 			sync = 1
 		}
 		mode, rw, load := r.Intn(2), r.Intn(2), r.Intn(2)
+		if sparse {
+			mode = 2
+			seg = []int{300, 450, 600}[r.Intn(3)]
+		}
 		open := optLine(mode, rw, load, sync, seg)
 		emit("#H %d %s power=%v", i, open, power)
 		out.Flush()
@@ -219,6 +229,11 @@ func suiteCrash(seed uint64, n int, work string, power bool) {
 		live.record = false
 		events := live.events
 		live.closeQuiet()
+		if os.Getenv("VERIF_EVDUMP") != "" {
+			for k, e := range events {
+				fmt.Fprintf(os.Stderr, "EV %d %s %s off=%d len=%d\n", k, e.Op, e.Path, e.Off, len(e.Data))
+			}
+		}
 		if sync == 1 {
 			// tie for TraceFacts.synced_writes: with SyncEnable every data-file write is
 			// followed by a sync of the same file before the next write
@@ -266,6 +281,29 @@ func suiteCrash(seed uint64, n int, work string, power bool) {
 				}
 				admissible = []int{k}
 			}
+			// known finding F32 (sparse index mode): the index files of a sealed segment, the transaction-id
+			// trees and the bucket meta file are rewritten by Commit without a common commit point (the data
+			// record with the commit marker is written first, the key range of the bucket and the index files
+			// afterwards): a crash inside a Commit that rewrites any of them is not recoverable
+			f32 := false
+			if sparse {
+				for _, sp := range spans {
+					if sp.start <= e && e < sp.end {
+						for k := sp.start; k < sp.end && k < len(events); k++ {
+							if strings.HasPrefix(events[k].Path, "bpt/") || strings.HasPrefix(events[k].Path, "meta/") {
+								f32 = true
+							}
+						}
+					}
+				}
+			}
+			specOrKnown := func(format string, a ...interface{}) {
+				if f32 {
+					emit("#KNOWN F32 "+format, a...)
+				} else {
+					emit("#SPEC "+format, a...)
+				}
+			}
 			variants := []int{-1}
 			if e < len(events) {
 				variants = tornPoints(events[e])
@@ -286,7 +324,7 @@ func suiteCrash(seed uint64, n int, work string, power bool) {
 					ropen := optLine(mode, rwm, lm, sync, seg)
 					opens++
 					if rec.run(ropen) != "ok" {
-						emit("#SPEC open-failed after a crash at event %d/%d (%s %s off=%d torn=%d power=%v keepLast=%v) reopen=(%s)", e, len(events), evOp(events, e), evPath(events, e), evOff(events, e), torn, pl == 1, keepLast, ropen)
+						specOrKnown("open-failed after a crash at event %d/%d (%s %s off=%d torn=%d power=%v keepLast=%v) reopen=(%s) error=%q", e, len(events), evOp(events, e), evPath(events, e), evOff(events, e), torn, pl == 1, keepLast, ropen, rec.lastOpenErr)
 						continue
 					}
 					o := obsOf(rec)
@@ -298,7 +336,7 @@ func suiteCrash(seed uint64, n int, work string, power bool) {
 					}
 					if !okk {
 						d := firstDiff(o, obsList[admissible[0]], obsCalls(p))
-						emit("#SPEC crash at event %d/%d (%s %s off=%d torn=%d power=%v keepLast=%v inflight=%v): recovered state is neither the state before nor after the in-flight transaction: %s", e, len(events), evOp(events, e), evPath(events, e), evOff(events, e), torn, pl == 1, keepLast, inflight, d)
+						specOrKnown("crash at event %d/%d (%s %s off=%d torn=%d power=%v keepLast=%v inflight=%v): recovered state is neither the state before nor after the in-flight transaction: %s", e, len(events), evOp(events, e), evPath(events, e), evOff(events, e), torn, pl == 1, keepLast, inflight, d)
 					}
 					// continue after recovery: more commits (forcing rotations), clean reopen
 					if okk && (images%7 == 0 || torn > 100) {
@@ -313,7 +351,7 @@ func suiteCrash(seed uint64, n int, work string, power bool) {
 							rec.run(fmt.Sprintf("put %s %s %s 0 1700000000", hx([]byte("zz")), hx([]byte(fmt.Sprintf("c%d", t))), hx([]byte(strings.Repeat("y", 40+t)))))
 							if rec.run("commit") != "ok" {
 								ok2 = false
-								emit("#SPEC commit failed after crash recovery (event %d torn %d)", e, torn)
+								specOrKnown("commit failed after crash recovery (event %d torn %d)", e, torn)
 							}
 							rec.run("rollback")
 						}
@@ -324,14 +362,14 @@ func suiteCrash(seed uint64, n int, work string, power bool) {
 						rec.run("close")
 						rec.db = nil
 						if rec.run(optLine(mode, (rwm+1)%2, (lm+1)%2, sync, seg)) != "ok" {
-							emit("#SPEC open-failed after crash at event %d (torn=%d), recovery, %d further commits and a clean close", e, torn, ncont)
+							specOrKnown("open-failed after crash at event %d (torn=%d), recovery, %d further commits and a clean close", e, torn, ncont)
 						} else {
 							o2 := obsOf(rec)
 							rec.run("begin r ?")
 							g2 := rec.run("getall " + hx([]byte("zz")))
 							rec.run("rollback")
 							if !eqs(o1, o2) || g1 != g2 || !strings.Contains(g2, hx([]byte(fmt.Sprintf("c%d", ncont-1)))) {
-								emit("#SPEC commits made after crash recovery (event %d torn=%d) are lost or changed after a clean reopen: %q vs %q", e, torn, g1, g2)
+								specOrKnown("commits made after crash recovery (event %d torn=%d) are lost or changed after a clean reopen: %q vs %q", e, torn, g1, g2)
 							}
 						}
 					}
@@ -384,7 +422,8 @@ func firstDiff(a, b, calls []string) string {
 
 // suiteMergeCrash (C16): a crash at every file-mutation point inside Merge
 // (torn writes included) must leave a directory that reopens to the pre-Merge contents.
-func suiteMergeCrash(seed uint64, n int, work string) {
+// power: SyncEnable forced on and every image is the one a power loss leaves (unsynced writes dropped).
+func suiteMergeCrash(seed uint64, n int, work string, power bool) {
 	os.MkdirAll(work, 0755)
 	live := NewSt(work + "/live")
 	rec := NewSt(work + "/rec")
@@ -403,9 +442,12 @@ func suiteMergeCrash(seed uint64, n int, work string) {
 		r := root.Fork()
 		seg := []int{150, 200, 300}[r.Intn(3)]
 		sync := r.Intn(2)
+		if power {
+			sync = 1
+		}
 		mode, rw, load := r.Intn(2), r.Intn(2), r.Intn(2)
 		open := optLine(mode, rw, load, sync, seg)
-		emit("#H %d %s mergecrash", i, open)
+		emit("#H %d %s mergecrash power=%v", i, open, power)
 		out.Flush()
 		live.comment, rec.comment = true, true
 		cur = live
@@ -452,15 +494,15 @@ func suiteMergeCrash(seed uint64, n int, work string) {
 				images++
 				cur = rec
 				rec.reset()
-				buildImage(rec.dir, events, e, torn, false, false)
+				buildImage(rec.dir, events, e, torn, power, power && images%2 == 1)
 				ropen := optLine(mode, images%2, (images/2)%2, sync, seg)
 				if rec.run(ropen) != "ok" {
-					emit("#SPEC open-failed after a crash during Merge at event %d (%s %s torn=%d) reopen=(%s)", e-m0, evOp(events, e), evPath(events, e), torn, ropen)
+					emit("#SPEC open-failed after a crash during Merge at event %d (%s %s torn=%d power=%v) reopen=(%s)", e-m0, evOp(events, e), evPath(events, e), torn, power, ropen)
 					continue
 				}
 				o := obsOf(rec)
 				if nk, real := diffClass(o, before, obsCalls(p)); real != "" {
-					emit("#SPEC crash during Merge at event %d/%d (%s %s torn=%d): contents differ from before Merge: %s", e-m0, m1-m0, evOp(events, e), evPath(events, e), torn, real)
+					emit("#SPEC crash during Merge at event %d/%d (%s %s torn=%d power=%v): contents differ from before Merge: %s", e-m0, m1-m0, evOp(events, e), evPath(events, e), torn, power, real)
 				} else if nk > 0 {
 					emit("#KNOWN F30 crash during Merge at event %d/%d: %d empty structures answer 'not found' after recovery", e-m0, m1-m0, nk)
 				}
